@@ -4,4 +4,5 @@ CONSTANTS
   MaxW = 32
   MaxL = 4
 INVARIANTS Off0 Scale0 Scale1 Recentre Closed MonoIso Companions ViewIff ViewLayout FramesTimesN RoundTripId WriteThrough BoxedOK
+POSTCONDITION AllTaken
 CHECK_DEADLOCK FALSE
